@@ -9,6 +9,7 @@ LEVEL = "other"
 DEDICATED = [
     # lint attributes of the user and generated code (hunt 3): an expectation fulfilled by the item itself, forbid of a lint the generator
     # used to allow, a diverging default value, allow(warnings) on a field of a deprecated type, lint attributes on a user-written operator impl
+    ("crate_path_siblings_on_enum_and_struct", "#[derive_ex::derive_ex(Debug)]\n#[derive_ex::derive_ex(Clone)]\n#[::derive_ex::derive_ex(PartialEq, Default)]\npub enum X { #[default] A, B(u8) }\n#[derive_ex::derive_ex(Debug)]\n#[derive_ex::derive_ex(Clone)]\n#[::derive_ex::derive_ex(PartialEq, Default)]\npub struct Y { pub a: u8 }\n#[derive_ex::derive_ex(Hash)]\n/// doc between\n#[derive_ex::derive_ex(PartialEq, Eq)]\npub enum Z<T> { A { #[eq(key = crate::support::gk(&$))] a: T }, B }"),
     ("expect_deprecated_on_field", "#[deprecated]\n#[derive(Clone, Debug, PartialEq, Default)]\npub struct Old(pub u8);\n#[derive_ex::derive_ex(Clone, Debug, PartialEq, Default)]\npub struct X { #[expect(deprecated)] pub a: Old, pub b: u8 }\n#[derive(derive_ex::Ex)]\n#[derive_ex(Clone, PartialEq, Debug)]\npub enum E { A(#[expect(deprecated)] Old), B }"),
     ("forbid_deprecated_without_deprecated", "#[forbid(deprecated)]\n#[derive_ex::derive_ex(Clone, Debug, PartialEq, Default, Add, Not)]\npub struct X(pub u8);\n#[warn(deprecated)]\n#[deny(warnings)]\n#[derive(derive_ex::Ex)]\n#[derive_ex(Clone, PartialEq, Hash)]\npub enum E { A, B(u8) }"),
     ("expect_on_item", "#[expect(non_camel_case_types)]\n#[derive_ex::derive_ex(Clone, Debug, Default, PartialEq, Eq, PartialOrd, Ord, Hash)]\npub struct my_type { pub a: u8 }\n#[derive(derive_ex::Ex)]\n#[derive_ex(Clone, PartialEq)]\n#[expect(non_camel_case_types)]\npub enum my_enum { A, B(u8) }"),
